@@ -1873,3 +1873,48 @@ EXTRA["C08"].append((prepare_opens_new_trace, "C08.19"))
 EXTRA["C02"].append((number_token_covers_reference, "C02.13"))
 EXTRA["C17"].append((number_token_covers_reference, "C17.10"))
 EXTRA["C18"].append((idle_twin_has_no_unitary, "C18.18"))
+
+
+def bounding_names_not_macros(ctx, rep, rule):
+    ix = ctx.ix
+    f = _func(ix, "jaqalpaq.core.algorithm.expand_subcircuits.expand_subcircuits")
+    SE = "jaqalpaq.core.algorithm.expand_subcircuits.SubcircuitExpander"
+    ps = _method(ix, SE, "process_subcircuit")
+    rep.rule(rule, "the bounding statements that replace a subcircuit block are found by NAME by every later pass (rebuild in fill_in_let, macro table in expand_macros): expand_subcircuits hands the expander the circuit's macro names and refuses a block whose bounding name is one of them", floor=1)
+    cons = construct_of(ps, "bounding-name-is-macro")
+    knows = any(isinstance(a, ast.Attribute) and a.attr == "macros" for c in ast.walk(f.node) if isinstance(c, ast.Call) and isinstance(c.func, ast.Name) and c.func.id == "SubcircuitExpander" for arg in list(c.args) + [k.value for k in c.keywords] for a in ast.walk(arg))
+    refuses = any(isinstance(r, ast.Raise) and any(taken and any(isinstance(c, ast.Compare) and isinstance(c.ops[0], ast.In) and "name" in ast.unparse(c.left) for c in ast.walk(t)) for t, taken in _enclosing_ifs(ps.node, r)) for r in ast.walk(ps.node))
+    if knows and refuses:
+        rep.ok(rule, cons, "refused under `<bound>.name in <macro names>`", ps.loc())
+    else:
+        rep.violation(rule, cons, "a circuit that defines `macro measure_all { .. }` (legal when the gate set lacks that name) and has a subcircuit block: the block is replaced by prepare_all; ..; measure_all with made-up busy definitions, and fill_in_let / expand_macros then take the closing statement for a call of the macro -- the subcircuit has no measure_all any more and yields no readout; renaming the (never called) macro changes the meaning of the block", ps.loc(), witness="register q[2]\nmacro measure_all { Px q[0] }\nsubcircuit { Px q[1] }")
+
+
+EXTRA["C09"].append((bounding_names_not_macros, "C09.14"))
+EXTRA.setdefault("C07", []).append((bounding_names_not_macros, "C07.10"))
+
+
+def distinct_qubits_checked(ctx, rep, rule):
+    ix = ctx.ix
+    ms = _method(ix, "jaqalpaq.emulator.unitary.UnitarySerializedEmulator", "_make_subcircuit")
+    rep.rule(rule, "the list of resolved qubit positions of a gate is tested for duplicates (a raise under a comparison of len(set(..)) with len(..)) before the index arithmetic uses it: the bit-shuffling is only a permutation for distinct positions", floor=1)
+    cons = construct_of(ms, "distinct-qubits")
+    lists = {c.func.value.id for c in ast.walk(ms.node) if isinstance(c, ast.Call) and isinstance(c.func, ast.Attribute) and c.func.attr == "append" and isinstance(c.func.value, ast.Name) and any(isinstance(x, ast.Attribute) and x.attr == "resolve_qubit" for a in c.args for x in ast.walk(a))}
+    if not lists:
+        rep.undecided(rule, cons, "no list of resolved qubit positions", ms.loc())
+        return
+    ok = False
+    for r in ast.walk(ms.node):
+        if isinstance(r, ast.Raise):
+            for t, taken in _enclosing_ifs(ms.node, r):
+                src = ast.unparse(t)
+                if taken and "set(" in src and "len(" in src and any(l in src for l in lists):
+                    ok = True
+    if ok:
+        rep.ok(rule, cons, f"duplicates in {sorted(lists)} raise JaqalError", ms.loc())
+    else:
+        rep.violation(rule, cons, f"{sorted(lists)} is used as it comes: `Sxx r[0] r[0]` (also through an alias of the same qubit, or two macro parameters bound to one qubit) parses, and the emulator builds a non-unitary matrix -- RuntimeError from the probability check, or silently the identity for CX", ms.loc(), witness="map a r[0]\nSxx a r[0]")
+
+
+EXTRA["C16"].append((distinct_qubits_checked, "C16.29"))
+EXTRA["C03"].append((distinct_qubits_checked, "C03.11"))
